@@ -304,6 +304,18 @@ pub fn search(seed: u64, n: u64) {
             collide_pair(&mut stats, &pair.a, &pair.b, &pair.class);
         }
     }
+    // the same kind of input away from the positive quadrant (own stream): shapes wholly at negative coordinates, straddling an
+    // axis, far from the origin - the collision search must not depend on where the shapes are (from seeded change C03-m9)
+    let mut rng_t = Rng(seed ^ 0x72A25C03);
+    for k in 0..(6 + n / 12) {
+        let (sa, sb) = (rand_shape(&mut rng_t), rand_shape(&mut rng_t));
+        let off = match k % 6 { 0 => Coord2(-250.0, -40.0), 1 => Coord2(-50.0, 0.0), 2 => Coord2(0.0, -50.0), 3 => Coord2(-300.0, 200.0), 4 => Coord2(-1000.0, -1000.0), _ => Coord2(-rng_t.r(20.0, 80.0), -rng_t.r(20.0, 80.0)) };
+        let tr = |p: &P| -> P { (p.0 + off, p.1.iter().map(|(a, b, c)| (*a + off, *b + off, *c + off)).collect()) };
+        let (a, b) = (vec![tr(&sa.path)], vec![tr(&sb.path)]);
+        stats.count("input.translated");
+        stats.case(&format!("translated by {:?} A={:?} B={:?}", off, a, b), true);
+        collide_pair(&mut stats, &a, &b, "translated");
+    }
     stats.print(PROP, "search");
 }
 
